@@ -255,6 +255,61 @@ def ldrive(variant, lines, timeout=900):
     return p, [l.split("\t") for l in outl]
 
 
+def run_fuzz(target, runs, seed, seeds=(), max_len=4080, nproc=None, timeout=3000):
+    """Build and run a cargo-fuzz target (libFuzzer + ASan) in nproc parallel processes with a
+    bounded number of runs each. Returns dict(execs, crashes=[(signature, artifact hex, stderr tail)])."""
+    import re
+    import shutil
+    build.ensure_pkg()
+    nproc = nproc or NPROC
+    td = os.path.join(build.CACHE, "target-fuzz")
+    env = dict(os.environ)
+    env.update({"CARGO_NET_OFFLINE": "true", "CARGO_TARGET_DIR": td})
+    env.pop("RUSTFLAGS", None)
+    with build._Lock("build-fuzz"):
+        p = subprocess.run(["cargo", "+nightly", "fuzz", "build", target], cwd=build.PKG, env=env, stdout=subprocess.PIPE,
+                           stderr=subprocess.STDOUT, text=True)
+    if p.returncode != 0:
+        raise HarnessError("cargo fuzz build failed: " + p.stdout[-1500:])
+    binp = os.path.join(td, "x86_64-unknown-linux-gnu", "release", target)
+    work = tempfile.mkdtemp(prefix="fuzz-", dir=os.path.join(build.CACHE, "stage"))
+    build._stages.append(work)
+    out = {"execs": 0, "crashes": [], "processes": nproc}
+
+    def one(i):
+        cdir, adir = os.path.join(work, "c%d" % i), os.path.join(work, "a%d" % i)
+        os.makedirs(cdir)
+        os.makedirs(adir)
+        for k, b in enumerate(seeds):
+            with open(os.path.join(cdir, "seed%d" % k), "wb") as f:
+                f.write(b)
+        e = dict(env)
+        e["ASAN_OPTIONS"] = "detect_leaks=0"
+        try:
+            return i, subprocess.run([binp, cdir, "-runs=%d" % (runs // nproc), "-seed=%d" % (seed * 64 + i + 1), "-timeout=10",
+                                      "-max_len=%d" % max_len, "-artifact_prefix=" + adir + "/", "-print_final_stats=1"],
+                                     stdout=subprocess.PIPE, stderr=subprocess.PIPE, timeout=timeout, env=e), adir
+        except subprocess.TimeoutExpired:
+            return i, None, adir
+    for i, p, adir in parallel(one, range(nproc)):
+        if p is None:
+            out.setdefault("timeouts", 0)
+            out["timeouts"] += 1
+            continue
+        se = p.stderr.decode(errors="replace")
+        m = re.search(r"stat::number_of_executed_units:\s*(\d+)", se)
+        out["execs"] += int(m.group(1)) if m else 0
+        if p.returncode != 0:
+            arts = [os.path.join(adir, f) for f in os.listdir(adir)]
+            art = open(arts[0], "rb").read().hex() if arts else ""
+            loc = re.search(r"panicked at (/repo/[\w/.]+:\d+)", se)
+            asan = asan_reports(se)
+            sig = ("panic:" + loc.group(1).replace("/repo/", "")) if loc else (("asan:%s:%s" % asan[0]) if asan else "crash")
+            out["crashes"].append((sig, art, se[-1500:]))
+    shutil.rmtree(work, ignore_errors=True)
+    return out
+
+
 def parallel(fn, items, nproc=None):
     """Run fn(item) in threads (for subprocess fan-out)."""
     from concurrent.futures import ThreadPoolExecutor
